@@ -1784,8 +1784,7 @@ def _patch_exec():
         st2 = st
         for d in mon["havoc"]:
             for nm, obj in self.modset_entry(d, rst, Mode(True)):
-                cur = self.hfield(st2, nm)
-                st2 = self.hset(st2, nm, obj, self.fresh("env", cur.sort().range()))
+                st2 = self.havoc_spot(st2, nm, obj)
         rst2 = st2.copy(env=rst.env)
         facts = [self.truth(self.pev(ast.parse(cl, mode="eval").body, rst2, m), rst2) for cl in mon["inv"]]
         self.assumptions.add("monitor reading with interference: at every statement outside a lock, at every lock acquisition and around every call out of the monitor, other threads may change the shared locations arbitrarily subject to the monitor invariant; each such point first proves the invariant (guarantee)")
@@ -2337,7 +2336,7 @@ def _patch_loops():
         for nm in sorted(touched):
             cur = self.hfield(st2, nm)
             newarr = self.fresh("H_" + nm.replace("$", "S_"), cur.sort())
-            excl = [o != obj for (n2, obj) in spots if n2 == nm]
+            excl = [self.spot_excl(obj, o) for (n2, obj) in spots if n2 == nm]
             facts.append(ForAll([o], Implies(And(Select(st.alloc, o), *excl), Select(newarr, o) == Select(cur, o)), patterns=[Select(newarr, o)]))
             heap[nm] = newarr
             frame[nm] = (newarr, excl and [obj for (n2, obj) in spots if n2 == nm] or [])
@@ -2411,6 +2410,10 @@ def _patch_loops():
             if maps is None:
                 raise ContractError(f"modifies {d}: not a container")
             return [(mn, sv.t) for mn in maps]
+        if isinstance(node, ast.Attribute) and isinstance(node.value, ast.Call) and isinstance(node.value.func, ast.Name) and node.value.func.id == "each":
+            # each(S).f : field f of every member of the sequence S
+            sq = self.as_seq(self.pev(node.value.args[0], st, m), st)
+            return [(node.attr, ("members", sq))]
         if isinstance(node, ast.Attribute):
             base = self.pev(node.value, st, m)
             return [(node.attr, base.t)]
@@ -2427,10 +2430,28 @@ def _patch_loops():
             cur = se.heap.get(nm)
             if cur is None or cur.eq(headarr):
                 continue
-            g = ForAll([o], Implies(And(Select(alloc_entry, o), *[o != x for x in objs]), Select(cur, o) == Select(headarr, o)),
+            g = ForAll([o], Implies(And(Select(alloc_entry, o), *[self.spot_excl(x, o) for x in objs]), Select(cur, o) == Select(headarr, o)),
                        patterns=[Select(cur, o)])
             self.oblige(se, g, f"loop{k_ord}.frame[{nm}]", node)
     E.check_loop_frame = check_loop_frame
+
+    def spot_excl(self, obj, o):
+        """formula: object o is NOT the location(s) denoted by a modset spot"""
+        if isinstance(obj, tuple) and obj[0] == "members":
+            return Not(L.mem(obj[1], o))
+        return o != obj
+    E.spot_excl = spot_excl
+
+    def havoc_spot(self, st, nm, obj):
+        cur = self.hfield(st, nm)
+        if isinstance(obj, tuple) and obj[0] == "members":
+            new = self.fresh("H_" + nm.replace("$", "S_"), cur.sort())
+            o = Const("o", V)
+            h = dict(st.heap)
+            h[nm] = new
+            return st.copy(heap=h).assume(ForAll([o], Implies(Not(L.mem(obj[1], o)), Select(new, o) == Select(cur, o)), patterns=[Select(new, o)]))
+        return self.hset(st, nm, obj, self.fresh("hv", cur.sort().range()))
+    E.havoc_spot = havoc_spot
 
     def inv_clauses(self, k_ord):
         inv = self.c.invariant.get(k_ord, [])
@@ -2654,6 +2675,11 @@ def _patch_calls():
             if n in CLASSES:
                 return self.ev_construct(n, node, st, ctx, k)
             raise OutOfSubset(f"call of {n!r}: no contract (add it to callees)")
+        if (isinstance(f, ast.Attribute) and isinstance(f.value, ast.Call) and isinstance(f.value.func, ast.Name) and f.value.func.id == "super"
+                and not f.value.args and self.cls is not None and self.cls.isa):
+            # super().append(x) in a subclass of a builtin container: the builtin's method on self
+            recv = st.env["self"]
+            return self.ev_list(node.args, st, ctx, lambda svs, st2: self.builtin_method(self.cls.isa, f.attr, recv, svs, node, st2, ctx, k))
         if isinstance(f, ast.Attribute) and txt == "self.__class__" and self.c.cls:
             self.assumptions.add("self.__class__ is the class itself (subclasses of the verified class are not considered)")
             return self.ev_construct(self.c.cls, node, st, ctx, k)
@@ -3108,8 +3134,7 @@ def _patch_calls():
                 continue
             spots += sub.modset_entry(d, cst, m_pre)
         for nm, obj in spots:
-            cur = self.hfield(post, nm)
-            post = self.hset(post, nm, obj, self.fresh("hv", cur.sort().range()))
+            post = self.havoc_spot(post, nm, obj)
         # result
         if fnc.fresh_result:
             res, post = self.alloc_obj(post, type_hint(fnc.returns)[1], "res")
@@ -3277,7 +3302,7 @@ def _patch_run():
                 if base is None or arr is base or arr.eq(base):
                     continue
                 o = self.fresh("fo", V)
-                excl = [o != x for x in modspots.get(nm, [])]
+                excl = [self.spot_excl(x, o) for x in modspots.get(nm, [])]
                 g = ForAll([o], Implies(And(Select(self.alloc0, o), *excl), Select(arr, o) == Select(base, o)),
                            patterns=[Select(arr, o)])
                 self.oblige(st, g, f"{tag}.frame[{nm}]", node)
